@@ -75,6 +75,12 @@ CTX_N = {
     # the target is also an operand of the call; READ targets while an empty DATA item is present (filter path)
     "assign-self": "10 X = {e}", "assign-self-y": "10 Y = {e}", "read-sub-empty": "10 READ Q ( {e} )\n20 DATA 5 , , 7",
     "read-sub-empty2": "10 READ W , Q ( {e} )\n20 DATA , 5",
+    # the value operand of POKE, at ordinary addresses and at the two speed-poke addresses (whose value the tool folds away)
+    "poke-value": "10 POKE 1024 , {e}", "poke-fast": "10 POKE 65497 , {e}", "poke-slow": "10 POKE 65496 , {e}", "poke-fast-hex": "10 POKE &HFFD9 , {e}",
+    "sound-second": "10 SOUND 1 , {e}", "set-colour": "10 SET ( 1 , 2 , {e} )", "palette": "10 PALETTE {e} , 1", "hcolor": "10 HCOLOR 1 , {e}",
+    # PRINT items that start with a sign or NOT, alone and after another item
+    "print-neg": "10 PRINT - {e}", "print-neg-second": "10 PRINT Y ; - {e}", "print-not": "10 PRINT NOT {e}", "print@-neg": "10 PRINT @ 5 , - {e}",
+    "assign-neg": "10 Z = - {e}",
 }
 CTX_S = {"assign-self": "10 X$ = {e}", "assign": "10 Z$ = {e}", "if": '10 IF {e} = "A" THEN 20\n20 END', "ifelse": '10 IF {e} = "A" THEN Z = 1 ELSE Z = 2', "print": "10 PRINT {e}",
          "play": "10 PLAY {e}", "hprint": "10 HPRINT ( 1 , 2 ) , {e}", "hdraw": "10 HDRAW {e}", "sassign-sub": "10 R$ ( JOYSTK ( 0 ) ) = {e}",
